@@ -62,7 +62,7 @@ def run(ctx):
     # the generating runs are model-checking runs (invariants and action properties are checked
     # while the scripts are printed); thorough adds deeper runs without printing
     def gen(cfg, d, **kw):
-        g = ctx.tlc("Delta", cfg, timeout=3000, defines=d, **kw)
+        g = ctx.tlc("Delta", cfg, timeout=14400, defines=d, **kw)
         if not g.ok:
             raise vk.Inconclusive("model %s does not satisfy its properties (%s); see %s" % (
                 cfg, g.invariant or g.error or "deadlock", g.log))
@@ -76,10 +76,10 @@ def run(ctx):
     g = gen("Delta_ignore.cfg", defs(PIG3 if T else PIG, 3, ctx.pick(2, 3), "tree", True))
     families.append(("ignore", g.printed("SCRIPT"), ctx.pick(20, 100), ctx.pick(2, 3)))
     if T:
-        m1 = ctx.model_check("Delta", "Delta_mc.cfg", timeout=3000, defines=defs(P2, 4, 3, "tree", False))
-        ctx.model_check("Delta", "Delta_mc.cfg", timeout=3000, defines=defs(P3, 4, 3, "atomic", False))
-        ctx.model_check("Delta", "Delta_ignore.cfg", timeout=3000, defines=defs(PIG, 4, 3, "tree", False))
-        g = ctx.tlc("Delta", "Delta_mc.cfg", timeout=3000, count=False, simulate="num=400", depth=11, seed=ctx.seed,
+        m1 = ctx.model_check("Delta", "Delta_mc.cfg", timeout=14400, defines=defs(P2, 4, 3, "tree", False))
+        ctx.model_check("Delta", "Delta_mc.cfg", timeout=14400, defines=defs(P3, 4, 3, "atomic", False))
+        ctx.model_check("Delta", "Delta_ignore.cfg", timeout=14400, defines=defs(PIG, 4, 3, "tree", False))
+        g = ctx.tlc("Delta", "Delta_mc.cfg", timeout=14400, count=False, simulate="num=400", depth=11, seed=ctx.seed,
                     defines=defs(P3, 6, 5, "atomic", True))
         if not g.ok:
             raise vk.Inconclusive("simulation failed: %s" % g.log)
@@ -114,11 +114,11 @@ def run(ctx):
     conform = []
     for name, run_, env in (("replay", "^TestVerif_C13_Replay$", {"VERIF_IN": inp}),
                             ("random", "^TestVerif_C13_Random$", {})):
-        rc, out, trace = ctx.driver(PKG, run_, FILES, env=env, out="trace_%s.ndjson" % name, timeout=3000)
+        rc, out, trace = ctx.driver(PKG, run_, FILES, env=env, out="trace_%s.ndjson" % name, timeout=14400)
         if rc != 0:
             raise vk.Inconclusive("driver %s failed:\n%s" % (name, out[-3000:]))
         events = vk.read_ndjson(trace)
-        acc, rej = ctx.validate_trace("Trace_Delta", "Trace_Delta.cfg", trace, name="tlc_" + name, timeout=3000)
+        acc, rej = ctx.validate_trace("Trace_Delta", "Trace_Delta.cfg", trace, name="tlc_" + name, timeout=14400)
         start, h = {}, -1
         for i, e in enumerate(events):
             if e["ev"] == "reset":
